@@ -177,13 +177,17 @@ impl AbstractInstructionSet {
                             }
                             _ => (),
                         },
-                        VirtualOp::MOVE(dest, src) => {
-                            let ver = get_def_version(&latest_version, src);
-                            if let Some(RegContents::BaseOffset(src, 0)) = reg_contents.get(src) {
-                                if dest == &src.reg && src.ver == ver {
-                                    retain = false;
-                                }
-                            } else {
+                        VirtualOp::MOVE(dest, src) => match reg_contents.get(src) {
+                            Some(RegContents::BaseOffset(base_reg, 0))
+                                if dest == &base_reg.reg
+                                    && get_def_version(&latest_version, &base_reg.reg)
+                                        == base_reg.ver =>
+                            {
+                                // `src` holds the current value of `dest`.
+                                retain = false;
+                            }
+                            _ => {
+                                let ver = get_def_version(&latest_version, src);
                                 reg_contents.insert(
                                     dest.clone(),
                                     RegContents::BaseOffset(
@@ -194,8 +198,9 @@ impl AbstractInstructionSet {
                                         0,
                                     ),
                                 );
+                                record_new_def(&mut latest_version, dest);
                             }
-                        }
+                        },
                         _ => {
                             // For every Op that we don't know about,
                             // forget everything we know about its def registers.
